@@ -2433,6 +2433,12 @@ class Attribute(object):
                       % (attr.entity.__name__, old_dbval, attr.reverse)
             throw(UnrepeatableReadError, msg)
 
+        reverse = attr.reverse
+        if is_reverse_call and reverse and not reverse.is_collection \
+                and old_dbval not in (None, NOT_LOADED) and new_dbval is not NOT_LOADED:
+            # the previous partner loses the link: tell it BEFORE anything is changed here, it may raise UnrepeatableReadError
+            reverse.db_set(old_dbval, NOT_LOADED, is_reverse_call=True)
+
         if new_dbval is NOT_LOADED: obj._dbvals_.pop(attr, None)
         else: obj._dbvals_[attr] = new_dbval
 
@@ -2461,8 +2467,7 @@ class Attribute(object):
         if not reverse: pass
         elif not is_reverse_call: attr.db_update_reverse(obj, old_dbval, new_dbval)
         elif old_dbval not in (None, NOT_LOADED):
-            if not reverse.is_collection:
-                if new_dbval is not NOT_LOADED: reverse.db_set(old_dbval, NOT_LOADED, is_reverse_call=True)
+            if not reverse.is_collection: pass  # done above, before the change
             elif isinstance(reverse, Set):
                 reverse.db_reverse_remove((old_dbval,), obj)
             else: throw(NotImplementedError)
